@@ -11,6 +11,7 @@ From PahoV Require Import Base.Prelude Matcher.Level Matcher.Trie Matcher.TrieSp
 Definition dec (A : Type) := list Z -> option (A * list Z).
 
 Definition take_z : dec Z := fun l => match l with [] => None | x :: r => Some (x, r) end.
+Definition take_bool : dec bool := fun l => match l with [] => None | x :: r => Some (negb (x =? 0), r) end.
 
 Definition take_str : dec (list Z) := fun l =>
   match l with
@@ -190,9 +191,9 @@ Definition entry_dict_ops (args : list Z) : list Z :=
 
 (* ---------------------------------------------------------------- entries 4, 5: dispatch histories
    regop   : 1 filter cb | 2 filter | 3 b
-   hop     : 1 regop | 2 topic decodable inner          inner = counted list of counted lists of regop
+   hop     : 1 regop | 2 topic decodable inner raises   inner = counted list of counted lists of regop, raises = counted list of 0/1
    logev   : 1 regop | 2 topic decodable n h1..hn        handler = 0 (on_message) | cb+1
-   entry 4 : history -> log (counted), c15_ok log
+   entry 4 : suppress_exceptions, history -> log (counted), c15_ok log
    entry 5 : log (counted) -> c15_ok log *)
 Definition take_regop : dec regop := fun l =>
   match l with
@@ -212,7 +213,11 @@ Definition take_hop : dec hop := fun l =>
       match take_str r with
       | Some (topic, d :: r') =>
           match take_counted (take_counted take_regop) r' with
-          | Some (inner, r'') => Some (HDeliver topic (negb (d =? 0)) inner, r'')
+          | Some (inner, r'') =>
+              match take_counted take_bool r'' with
+              | Some (raises, r3) => Some (HDeliver topic (negb (d =? 0)) inner raises, r3)
+              | None => None
+              end
           | None => None
           end
       | _ => None
@@ -257,10 +262,15 @@ Definition enc_logev (e : logev) : list Z :=
   | LDeliver topic d ran => 2 :: enc_str topic ++ enc_bool d :: enc_counted enc_handler ran
   end.
 
+(* first argument: suppress_exceptions *)
 Definition entry_dispatch (args : list Z) : list Z :=
-  match take_counted take_hop args with
-  | Some (h, []) => let log := h_log h in enc_counted enc_logev log ++ [enc_bool (c15_ok log)]
-  | _ => [-1]
+  match args with
+  | sup :: args' =>
+      match take_counted take_hop args' with
+      | Some (h, []) => let log := h_log (negb (sup =? 0)) h in enc_counted enc_logev log ++ [enc_bool (c15_ok log)]
+      | _ => [-1]
+      end
+  | [] => [-1]
   end.
 
 Definition entry_c15_ok (args : list Z) : list Z :=
